@@ -124,6 +124,12 @@ impl<V: Clone + Eq + Hash + Debug> Table<V> {
 }
 
 /// Id values by number (taken from a donor `Xot`; an id is just its number).
+fn bank_push(b: &mut Bank, n: NameId, ns: NamespaceId, p: PrefixId) {
+    b.names.push(n);
+    b.nss.push(ns);
+    b.pfs.push(p);
+}
+
 struct Bank {
     names: Vec<NameId>,
     nss: Vec<NamespaceId>,
@@ -140,11 +146,17 @@ impl Bank {
         b.nss.push(x.xml_namespace());
         b.pfs.push(x.empty_prefix());
         b.pfs.push(x.xml_prefix());
-        for i in 2..CAPACITY {
+        // a little beyond 2^16 so that ids of a widened id type are available too; with 16-bit ids
+        // the entries past 2^16 are the wrapped ids again, and with a registration that refuses
+        // the overflow the bank simply ends there
+        for i in 2..CAPACITY + 256 {
             let s = format!("bank{}", i);
-            b.names.push(x.add_name(&s));
-            b.nss.push(x.add_namespace(&s));
-            b.pfs.push(x.add_prefix(&s));
+            match guarded(|| (x.add_name(&s), x.add_namespace(&s), x.add_prefix(&s))) {
+                Some((a, bb, c)) => {
+                    bank_push(&mut b, a, bb, c);
+                }
+                None => break,
+            }
         }
         for i in [0usize, 1, 2, 77, 4096, CAPACITY - 1] {
             assert_eq!(name_num(b.names[i]), i);
@@ -303,13 +315,19 @@ impl<'a> Hist<'a> {
 
     fn add_name_ns(&mut self, local: &str, ns: usize, via_add_name: bool) -> usize {
         let nsid = self.ns_id(ns);
-        let id = if via_add_name { self.cur.xot.add_name(local) } else { self.cur.xot.add_name_ns(local, nsid) };
+        let x = &mut self.cur.xot;
+        let r = guarded(|| if via_add_name { x.add_name(local) } else { x.add_name_ns(local, nsid) });
+        let req = if via_add_name { format!("idmap add_name {}", enc(local)) } else { format!("idmap add_name_ns {} {}", enc(local), ns) };
+        let id = match r {
+            Some(id) => id,
+            None => {
+                // a registration that panics (e.g. a checked id conversion): recorded, not fatal
+                self.emit(req, "panic".to_string());
+                return 0;
+            }
+        };
         let n = name_num(id);
-        if via_add_name {
-            self.emit(format!("idmap add_name {}", enc(local)), format!("ok {}", n));
-        } else {
-            self.emit(format!("idmap add_name_ns {} {}", enc(local), ns), format!("ok {}", n));
-        }
+        self.emit(req, format!("ok {}", n));
         let key = (local.to_string(), ns);
         if ns >= self.cur.ns.order.len() {
             self.sink.stat("reg.name.foreign-namespace-id");
@@ -335,7 +353,14 @@ impl<'a> Hist<'a> {
     }
 
     fn add_namespace(&mut self, v: &str) -> usize {
-        let id = self.cur.xot.add_namespace(v);
+        let x = &mut self.cur.xot;
+        let id = match guarded(|| x.add_namespace(v)) {
+            Some(id) => id,
+            None => {
+                self.emit(format!("idmap add_namespace {}", enc(v)), "panic".to_string());
+                return 0;
+            }
+        };
         let n = ns_num(id);
         self.emit(format!("idmap add_namespace {}", enc(v)), format!("ok {}", n));
         self.cur.ns.observe(&v.to_string(), n, self.fails, self.sink, &self.recent);
@@ -358,7 +383,14 @@ impl<'a> Hist<'a> {
     }
 
     fn add_prefix(&mut self, v: &str) -> usize {
-        let id = self.cur.xot.add_prefix(v);
+        let x = &mut self.cur.xot;
+        let id = match guarded(|| x.add_prefix(v)) {
+            Some(id) => id,
+            None => {
+                self.emit(format!("idmap add_prefix {}", enc(v)), "panic".to_string());
+                return 0;
+            }
+        };
         let n = prefix_num(id);
         self.emit(format!("idmap add_prefix {}", enc(v)), format!("ok {}", n));
         self.cur.pf.observe(&v.to_string(), n, self.fails, self.sink, &self.recent);
@@ -611,18 +643,21 @@ impl<'a> Hist<'a> {
         let step = |len: usize| (len / 300).max(1);
         let nm: Vec<((String, usize), usize)> = self.cur.nm.order.iter().step_by(step(self.cur.nm.order.len())).map(|k| (k.clone(), self.cur.nm.truth[k])).collect();
         for (k, n) in nm {
-            let id = self.bank.names[n % CAPACITY];
-            self.check_name(&k, id);
+            if let Some(&id) = self.bank.names.get(n) {
+                self.check_name(&k, id);
+            }
         }
         let ns: Vec<(String, usize)> = self.cur.ns.order.iter().step_by(step(self.cur.ns.order.len())).map(|k| (k.clone(), self.cur.ns.truth[k])).collect();
         for (k, n) in ns {
-            let id = self.bank.nss[n % CAPACITY];
-            self.check_ns(&k, id);
+            if let Some(&id) = self.bank.nss.get(n) {
+                self.check_ns(&k, id);
+            }
         }
         let pf: Vec<(String, usize)> = self.cur.pf.order.iter().step_by(step(self.cur.pf.order.len())).map(|k| (k.clone(), self.cur.pf.truth[k])).collect();
         for (k, n) in pf {
-            let id = self.bank.pfs[n % CAPACITY];
-            self.check_pf(&k, id);
+            if let Some(&id) = self.bank.pfs.get(n) {
+                self.check_pf(&k, id);
+            }
         }
         let bucket = |n: usize| match n {
             0..=2 => "2",
@@ -649,33 +684,53 @@ impl<'a> Hist<'a> {
         };
         self.recent.push(req.clone());
         let mut ids = Vec::with_capacity(count);
+        let mut panicked_at = None;
         for i in 0..count {
             let v = format!("{}{}", p, i);
+            let nsid = self.bank.nss[ns];
+            let x = &mut self.cur.xot;
             let n = match which {
-                0 => {
-                    let id = self.cur.xot.add_name_ns(&v, self.bank.nss[ns]);
-                    let n = name_num(id);
-                    let key = (v, ns);
-                    self.cur.nm.observe(&key, n, self.fails, self.sink, &self.recent);
-                    self.check_name(&key, id);
-                    n
-                }
-                1 => {
-                    let id = self.cur.xot.add_namespace(&v);
-                    self.cur.ns.observe(&v, ns_num(id), self.fails, self.sink, &self.recent);
-                    self.check_ns(&v, id);
-                    ns_num(id)
-                }
-                _ => {
-                    let id = self.cur.xot.add_prefix(&v);
-                    self.cur.pf.observe(&v, prefix_num(id), self.fails, self.sink, &self.recent);
-                    self.check_pf(&v, id);
-                    prefix_num(id)
-                }
+                0 => match guarded(|| x.add_name_ns(&v, nsid)) {
+                    Some(id) => {
+                        let n = name_num(id);
+                        let key = (v, ns);
+                        self.cur.nm.observe(&key, n, self.fails, self.sink, &self.recent);
+                        self.check_name(&key, id);
+                        Some(n)
+                    }
+                    None => None,
+                },
+                1 => match guarded(|| x.add_namespace(&v)) {
+                    Some(id) => {
+                        self.cur.ns.observe(&v, ns_num(id), self.fails, self.sink, &self.recent);
+                        self.check_ns(&v, id);
+                        Some(ns_num(id))
+                    }
+                    None => None,
+                },
+                _ => match guarded(|| x.add_prefix(&v)) {
+                    Some(id) => {
+                        self.cur.pf.observe(&v, prefix_num(id), self.fails, self.sink, &self.recent);
+                        self.check_pf(&v, id);
+                        Some(prefix_num(id))
+                    }
+                    None => None,
+                },
             };
-            ids.push(n);
+            match n {
+                Some(n) => ids.push(n),
+                None => {
+                    panicked_at = Some(i);
+                    break;
+                }
+            }
         }
         self.recent.pop();
+        if let Some(i) = panicked_at {
+            // e.g. after a fix that refuses the 65 537th entry: the model has to follow suit
+            self.emit(req, format!("panic {}", i));
+            return;
+        }
         let resp = format!("ok {}", ids_str(&samples.iter().map(|&i| ids[i]).collect::<Vec<_>>()));
         self.emit(req, resp);
     }
@@ -882,7 +937,7 @@ fn long_history(bank: &Bank, fails: &mut Fails, sink: &mut Sink) {
     // unqualified name
     let wrapped_ns = format!("n{}", CAPACITY - 2);
     let k = h.add_namespace(&wrapped_ns);
-    h.add_name_ns("in-wrapped-namespace", k % CAPACITY, false);
+    h.add_name_ns("in-wrapped-namespace", k, false);
     h.ro_name("in-wrapped-namespace", 0, true);
     let mut rng = Rng::new(17);
     h.clone_block(&mut rng);
